@@ -1435,6 +1435,26 @@ impl ObservationService {
         let observation_request = Self::optic_observation_request(request)?;
         let artifact = Self::observe(runtime, provenance, engine, observation_request)
             .map_err(|err| Self::optic_observation_error(request, err))?;
+        // A full provenance coordinate names (worldline, tick, commit hash). If
+        // the commit retained at that tick is a different one, the named
+        // coordinate is not in this history: obstruct instead of serving a
+        // reading of the other commit under the requested coordinate's identity.
+        if let EchoCoordinate::Worldline {
+            at: CoordinateAt::Provenance(reference),
+            ..
+        } = &request.coordinate
+        {
+            if artifact.resolved.commit_hash != reference.commit_hash {
+                return Err(Self::optic_obstruction(
+                    request,
+                    OpticObstructionKind::MissingWitness,
+                    Some(WitnessBasis::Missing {
+                        reason: MissingWitnessBasisReason::EvidenceUnavailable,
+                    }),
+                    "provenance coordinate names a commit that is not retained at that tick",
+                ));
+            }
+        }
         let witness_basis = Self::optic_witness_basis(provenance, request, &artifact)?;
         let read_identity = ReadIdentity::new(
             request.optic_id,
